@@ -46,6 +46,8 @@ var (
 	opDataARAI = MOp{K: "data", PID: 0x100, Len: 50, AF: "raipcr"}
 	opDataAprv = MOp{K: "data", PID: 0x100, Len: 400, AF: "priv10"}
 	opDataAnor = MOp{K: "data", PID: 0x100, Len: 30, AF: "noroom"}
+	// adaptation field sized so that the first packet holds exactly the PES header and no payload byte
+	opDataAhdr = MOp{K: "data", PID: 0x100, Len: 30, AF: "priv167"}
 	opDataB1   = MOp{K: "data", PID: 0x101, Len: 10, Hdr: "ptsdts"}
 	opDataB17  = MOp{K: "data", PID: 0x101, Len: 165 + 16*184, Hdr: "ptsdts"}
 	opDataBRAI = MOp{K: "data", PID: 0x101, Len: 20, AF: "rai"}
@@ -53,6 +55,8 @@ var (
 	opDataX    = MOp{K: "data", PID: 0x1fe, Len: 10}
 	opPktNull  = MOp{K: "pkt", Pkt: "null"}
 	opPktAF    = MOp{K: "pkt", Pkt: "afonly"}
+	opPktShort = MOp{K: "pkt", Pkt: "short"}
+	opPktShAF  = MOp{K: "pkt", Pkt: "shortaf"}
 	opPktBig   = MOp{K: "pkt", Pkt: "big"}
 	opPktAF252 = MOp{K: "pkt", Pkt: "af252"}
 	opAddMany  = MOp{K: "addmany", N: 40}
@@ -61,14 +65,14 @@ var (
 
 var muxFullAlpha = []MOp{
 	opAddA, opAddB, opAddAuto, opRmA, opRmB, opRmX, opPcrA, opPcrB, opPcrX, opTables,
-	opDataA1, opDataAfit, opDataAs1, opDataAs2, opDataA3, opDataA17, opDataARAI, opDataAprv, opDataAnor,
+	opDataA1, opDataAfit, opDataAs1, opDataAs2, opDataA3, opDataA17, opDataARAI, opDataAprv, opDataAnor, opDataAhdr,
 	opDataB1, opDataBRAI, opDataAuto, opDataX,
-	opPktNull, opPktAF, opPktBig, opPktAF252, opAddMany, opRmMany,
+	opPktNull, opPktAF, opPktShort, opPktBig, opPktAF252, opAddMany, opRmMany,
 }
 
 // A smaller alphabet for deeper searches.
 var muxCoreAlpha = []MOp{
-	opAddB, opRmA, opPcrA, opPcrX, opTables, opDataA1, opDataAs1, opDataA17, opDataARAI, opDataAnor, opDataB1, opDataX, opAddMany, opRmMany, opAddAuto, opDataAuto,
+	opAddB, opRmA, opPcrA, opPcrX, opTables, opDataA1, opDataAs1, opDataA17, opDataARAI, opDataAnor, opDataAhdr, opDataB1, opDataX, opAddMany, opRmMany, opAddAuto, opDataAuto,
 }
 
 var (
